@@ -65,15 +65,22 @@ theorem link_setsNodup (st f oSt oF : Name) (hasInv : Bool) (s : St) (h : SetsNo
   show SetsNodup (runSteps (lkStep st f oSt oF true) (s.ids st) s).1
   apply runSteps_inv _ SetsNodup _ _ _ h
   intro x a hx
-  unfold lkStep
-  apply runSteps_inv _ SetsNodup _ _ _ hx
-  intro y b hy
-  rw [lkInner_true_fst]
-  split
-  · exact setsNodup_del hy _ _ _ _
-  · split
+  have hloop : SetsNodup (runSteps (lkInner st f oSt oF true a) (x.setOf st a f) x).1 := by
+    apply runSteps_inv _ SetsNodup _ _ _ hx
+    intro y b hy
+    rw [lkInner_true_fst]
+    split
     · exact setsNodup_add hy _ _ _ _
     · exact hy
+  have hrm : ∀ (D : List Id) (y : St), SetsNodup y → SetsNodup (lkRemoveAll st f a D y) := by
+    intro D
+    unfold lkRemoveAll
+    induction D with
+    | nil => intro y hy; exact hy
+    | cons c t ih => intro y hy; rw [List.foldl_cons]; exact ih _ (setsNodup_del hy _ _ _ _)
+  unfold lkStep
+  simp only [if_true]
+  exact hrm _ _ hloop
 
 theorem fkCons_setsNodup (st f : Name) (n : Bool) (linked : Name) (s : St) (h : SetsNodup s) :
     SetsNodup (fkConsCheck st f n linked true s).1 := by
@@ -214,7 +221,7 @@ theorem CUnit.wf'_preserved (u : CUnit) (s : St) (hw : u.Wf) (hp : u.Pre s) (h :
   | cons c =>
     cases c with
     | unique st f n =>
-      obtain ⟨e1, e2, e3, _⟩ := unique_fix_post st f n s hp
+      obtain ⟨e1, e2, e3, _⟩ := unique_fix_post st f n s
       obtain ⟨u1, u2⟩ := unique_uniqOk st f n s ⟨h.uniq st f, h.uniqKey st f⟩
       refine ⟨fun st' => by rw [hfr.ids]; exact h.ids st', ?_, ?_, ?_, ?_, setsNodup_of_ents e1 hsets⟩
       · intro st' f'
@@ -275,9 +282,9 @@ theorem units_wf' (us : List CUnit) (hok : us.Pairwise CUnit.Compat) (hwf : ∀ 
       (u.wf'_preserved s hwu hpu h)
 
 /-- **a fix run keeps the state well-formed** -/
-theorem checkAll_fix_wf (S : Schema) (hS : SchemaOk S) (s : St) (hwf : s.WF) (hne : NoEmptyUnique S s) :
+theorem checkAll_fix_wf (S : Schema) (hS : SchemaOk S) (s : St) (hwf : s.WF) :
     (checkAll S true s).1.WF := by
   rw [checkAll_units]
-  exact wf_of_wf' (units_wf' S.units hS.1 hS.2 s (pre_of_wf hwf hne) (wf'_of_wf hwf))
+  exact wf_of_wf' (units_wf' S.units hS.1 hS.2 s (pre_of_wf hwf) (wf'_of_wf hwf))
 
 end StorageModel.C09
